@@ -65,14 +65,14 @@ CLAIMS.update({
     technique="Coq proof (per-step lemmas + counting invariant) + differential bench correspondence + closure oracle",
     ref="DESIGN.md §5 C03"),
  "C04": dict(
-    text="Coq theorems: Ok iff every mailbox is empty (all sent messages consumed); in a quiescent failure-free state with empty mailboxes no task is in the middle of a send (c04_no_half_done_send, all benches with capacities >= 1); a run changes neither time nor termination nor clock position (c04_run_frame); computed schedule-independence instances. Tie: every bench on the single-threaded executor and on 2,3,4,8,16 workers must equal the model's per-command multiset of handler invocations, results, times, sink contents; oracle 'Ok => everything sent was processed'.",
-    note=SIMNOTE + "Partial: no model of the work-stealing/parking protocol (Pool.v of the design was not built): 'neither returns early nor blocks forever' rests on real multi-threaded runs only; confluence proved only as instances; a task waiting for a query reply at quiescence is excluded by correspondence, not by a theorem.",
-    technique="Coq proof (quiescence lemma + frame) + cross-executor differential execution (1..16 threads)",
+    text="Coq theorems: Ok iff every mailbox is empty (all sent messages consumed); in a quiescent failure-free state with empty mailboxes no task is in the middle of a send (c04_no_half_done_send, all benches with capacities >= 1); a run changes neither time nor termination nor clock position (c04_run_frame); computed schedule-independence instances. Tie: every bench on the single-threaded executor and on 2,3,4,8,16 workers must equal the model's per-command multiset of handler invocations, results, times, sink contents; oracle 'Ok => everything sent was processed'; wide benches (129..300 models, more than one injector bucket); runs with seeded delays at 15 protocol points of the multi-threaded executor (guarded hooks nexosim::verif). Pool protocol (Pool.v): for the barrier program generated from the current mt_executor.rs (translator T3, obligation c04_pool_source_is_proved_program + call-order obligation), every pool size, every interleaving at one-shared-access granularity and every task behaviour, Executor::run reads the idle pool only when no task is left in the injector, a local queue, a fast slot or a worker's hands and no task is running (c04_pool_run_returns_only_at_quiescence, c04_pool_idle_means_quiescent, c04_pool_work_only_on_active_workers, c04_pool_no_assert_failure).",
+    note=SIMNOTE + "Partial: the pool theorems are safety only ('does not return early'); 'does not block forever' (no lost wake-up of a worker / of the main thread) rests on the real multi-threaded runs with delays; Pool.v is sequentially consistent and over-approximates search/steal/activation (see its header); confluence proved only as instances; a task waiting for a query reply at quiescence is excluded by correspondence, not by a theorem.",
+    technique="Coq proof (quiescence lemma + frame; inductive invariant of the worker-pool protocol on the barrier program translated from the source) + cross-executor differential execution (1..16 threads, seeded delays)",
     ref="DESIGN.md §5 C04"),
  "C06": dict(
-    text="Coq theorems: the in-flight counter equals the total number of queued messages over all mailboxes in every reachable state (c06_count_exact_step/run); the verdict is Ok iff all mailboxes are empty, Deadlock l iff l is the non-empty list of observed mailboxes, MessageLoss n iff no observed mailbox holds a message and n is the total (c06_report); observed = exactly the added models, sub-models included, with non-empty mailbox, by qualified name and exact length (c06_observed); refutation witness of the pinned tree (F2) and post-fix example. Tie: deterministic deadlocks (query loop-backs incl. sub-models, self-saturation), orphan mailboxes, hierarchies; exact verdict comparison + accounting oracle.",
-    note=SIMNOTE + "The multi-threaded idle window and the folding of per-thread counters are exercised on 2..16 threads, not modelled. Known defect F2 fixed (commit in known_findings.json).",
-    technique="Coq proof (counting invariant + characterisation of classify) + differential bench correspondence + accounting oracle",
+    text="Coq theorems: the in-flight counter equals the total number of queued messages over all mailboxes in every reachable state (c06_count_exact_step/run); the verdict is Ok iff all mailboxes are empty, Deadlock l iff l is the non-empty list of observed mailboxes, MessageLoss n iff no observed mailbox holds a message and n is the total (c06_report); observed = exactly the added models, sub-models included, with non-empty mailbox, by qualified name and exact length (c06_observed); refutation witness of the pinned tree (F2) and post-fix example. Tie: deterministic deadlocks (query loop-backs incl. sub-models, self-saturation), orphan mailboxes, hierarchies; exact verdict comparison + accounting oracle, also under seeded delays at the executor's protocol points. Pool protocol (Pool.v): for the barrier program generated from the current mt_executor.rs, every value of msg_count that Executor::run reads at an idle pool equals sent-minus-received over all tasks run so far, for every pool size, interleaving and task behaviour (c06_pool_count_read_is_exact, c06_pool_every_count_read_was_exact); refutation witness for the barrier of the pinned tree (F5).",
+    note=SIMNOTE + "The folding of per-thread counters and the idle hand-off are modelled in Pool.v (sequentially consistent; the release/acquire argument for active_workers is in DESIGN, not proved) and exercised on 2..16 threads with seeded delays. Known defects F2 and F5 fixed (commits in known_findings.json).",
+    technique="Coq proof (counting invariant + characterisation of classify; inductive invariant of the worker-pool protocol on the barrier program translated from the source) + differential bench correspondence + accounting oracle",
     ref="DESIGN.md §5 C06"),
  "C16": dict(
     text="Coq theorems: the first start of a model task is its init (logs EInit, installs the init script, leaves queued messages in place), a start logs an init iff the task was not yet initialised and a handler entry only on an initialised task, no other step logs an init or handler entry (c16_*); computed instance with sub-model names and an early message under all start orders. Tie: hierarchies of depth 0..3 with init scripts sending events/queries to other models, 1..16 threads; oracle: one init per added model inside SimInit::init before any of its handlers; Context::name() = parent.child; names in error reports via C11/C06 benches.",
